@@ -59,6 +59,19 @@ theorem sum_range_two_pow {M : Type*} [AddCommMonoid M] (L : ℕ) (f : ℕ → M
       simp
   rw [← himg, Finset.sum_image (fun a _ b _ h => natOfBits_injective L h)]
 
+/-- every flat index below `2^L` is the index of exactly one bit function -/
+theorem natOfBits_surjective (L k : ℕ) (hk : k < 2 ^ L) : ∃ r : Fin L → Bool, natOfBits L r = k := by
+  have himg : Finset.image (natOfBits L) Finset.univ = Finset.range (2 ^ L) := by
+    apply Finset.eq_of_subset_of_card_le
+    · intro k hk
+      obtain ⟨m, _, rfl⟩ := Finset.mem_image.mp hk
+      exact Finset.mem_range.mpr (natOfBits_lt L m)
+    · rw [Finset.card_image_of_injective _ (natOfBits_injective L)]
+      simp
+  have : k ∈ Finset.image (natOfBits L) Finset.univ := by rw [himg]; exact Finset.mem_range.mpr hk
+  obtain ⟨r, _, hr⟩ := Finset.mem_image.mp this
+  exact ⟨r, hr⟩
+
 theorem foldl_add_eq_sum (n : ℕ) (g : ℕ → ℤ) :
     (List.range n).foldl (fun acc k => acc + g k) 0 = ∑ k ∈ Finset.range n, g k := by
   induction n with
